@@ -675,6 +675,13 @@ func headerLen(s []byte) int {
 	return 1
 }
 
+type heldResult struct {
+	out, want  []byte
+	desc, comp string
+}
+
+var held []heldResult
+
 func phaseRoundtrip() {
 	r := rand.New(rand.NewSource(p.Seed*7 + 1))
 	pls := genPayloads(r)
@@ -765,6 +772,24 @@ func phaseRoundtrip() {
 					}
 					if int(res.cf) != cp.code {
 						viol(key+":format", fmt.Sprintf("%s: reported compression %d, expected %d", desc, res.cf, cp.code), map[string]interface{}{"case": desc})
+					}
+					// a caller keeps what it got (a range read collects many values before it answers): results of
+					// earlier calls must still be what they were after this call
+					if bytes.Equal(res.out, want) && len(want) <= 16<<10 {
+						held = append(held, heldResult{out: res.out, want: append([]byte{}, want...), desc: desc, comp: cp.name})
+						if len(held) > 96 { // several payloads back: the same payload decodes to the same bytes in every format
+							held = held[1:]
+						}
+					}
+					for i := 0; i < len(held)-1; i++ {
+						h := held[i]
+						p.Count("held_results_rechecked", 1)
+						if !bytes.Equal(h.out, h.want) {
+							viol("roundtrip:earlier-result-changed-by-later-call:"+h.comp, fmt.Sprintf("the %d bytes DeserializeData returned for [%s] are no longer the payload after the later call [%s uncompress=%v]: now %s, expected %s",
+								len(h.want), h.desc, desc, unc, short(h.out), short(h.want)), map[string]interface{}{"earlier_case": h.desc, "later_case": desc})
+							held = append(held[:i], held[i+1:]...)
+							i--
+						}
 					}
 					if !bytes.Equal(in, s) {
 						p.Count("input_mutated_by_deserialize", 1)
